@@ -238,4 +238,33 @@ example : respKey
 
 example : (exportCounters ⟨7, 3, 2, 2, 3, 2, 2⟩).map (·.2) = [7, 3, 2, 2, 3, 2, 2] := by decide
 
+/-! ### HTTP and gRPC call sites (tables regenerated from `http.rs` / `grpc.rs` on every run) -/
+
+/-- the event an HTTP / gRPC handler records for one request: the limiter's decision if it answered,
+    an error otherwise (the handlers record AFTER the decision is known) -/
+def handlerEvent (t : Transport) (decision : Option Bool) : Event :=
+  match decision with
+  | some allowed => .request t allowed
+  | none => .error t
+
+/-- **tie**: in both handlers the `Ok` arm records the decision's own `allowed` flag with the request
+    key under the handler's transport, the `Err` arm records an error, and nothing else is recorded -/
+theorem C15_tie_http_grpc_calls :
+    Gen.HTTP_METRIC_CALLS = [("ok", "record_request_with_key( MetricsTransport::Http, response.allowed, &req.key, )"),
+                             ("err", "record_error(MetricsTransport::Http)")] ∧
+    Gen.GRPC_METRIC_CALLS = [("ok", "record_request_with_key( MetricsTransport::Grpc, result.allowed, &req.key, )"),
+                             ("err", "record_error(MetricsTransport::Grpc)")] ∧
+    Gen.RESP_METRIC_CALLS = ["record_request_with_key(MetricsTransport::Redis, allowed, &key)",
+                             "record_request(MetricsTransport::Redis, allowed)"] := by decide
+
+/-- HTTP / gRPC: `denied` is recorded exactly for a decision with `allowed = false`; a limiter error
+    is recorded as an error, never as allowed or denied -/
+theorem C15_http_grpc_classification (t : Transport) (decision : Option Bool) :
+    (handlerEvent t decision = .request t false ↔ decision = some false) ∧
+    (handlerEvent t decision = .error t ↔ decision = none) ∧
+    (handlerEvent t decision = .request t true ↔ decision = some true) := by
+  cases decision with
+  | none => simp [handlerEvent]
+  | some b => cases b <;> simp [handlerEvent]
+
 end TcVerif.Metrics
